@@ -125,8 +125,25 @@ void NameSet::remove(const DataKey keys[], int n)
 
 void NameSet::remove(const int nums[], int n)
 {
+   if(n <= 0)
+      return;
+
+   // the numbers refer to the numbering before the call; removing the names one by one would renumber the remaining
+   // ones after every step, so the removal is done in one go through the status array version
+   int* dstat = nullptr;
+   spx_alloc(dstat, num());
+
+   for(int i = 0; i < num(); ++i)
+      dstat[i] = 0;
+
    for(int i = 0; i < n; ++i)
-      remove(nums[i]);
+   {
+      assert(nums[i] >= 0 && nums[i] < num());
+      dstat[nums[i]] = -1;
+   }
+
+   remove(dstat);
+   spx_free(dstat);
 }
 
 void NameSet::remove(int dstat[])
